@@ -57,6 +57,9 @@ pub struct Corpus {
     pub finite_small: Vec<Entry>,
     /// (symbol, word): closed manifolds with non-trivial finite fundamental group
     pub manifold_covers: Vec<(Entry, Vec<isize>)>,
+    /// one known-euclidean witness per invariant-table entry:
+    /// (base literal as entry W<i>, [k1, j1, k2, j2])
+    pub sg_witnesses: Vec<(Entry, [usize; 4])>,
 }
 
 impl Corpus {
@@ -88,7 +91,26 @@ impl Corpus {
             let id = format!("M{}", manifold_covers.len());
             manifold_covers.push((Entry { id, text: s.to_text(), provenance: parts[2..].join(" ") }, word));
         }
-        Ok(Corpus { k0, finite, g, extra_from, finite_small, manifold_covers })
+        let mut sg_witnesses = vec![];
+        let path = root.join("space_group_witnesses.txt");
+        let content = std::fs::read_to_string(&path).map_err(|e| format!("{}: {}", path.display(), e))?;
+        for line in content.lines() {
+            if line.starts_with('#') || line.trim().is_empty() {
+                continue;
+            }
+            let parts: Vec<&str> = line.split('\t').collect();
+            if parts.len() < 2 {
+                continue;
+            }
+            let s = Sym::parse(parts[0]).map_err(|e| format!("{}: {}", path.display(), e))?;
+            let nums: Vec<usize> = parts[1].split_whitespace().filter_map(|x| x.parse().ok()).collect();
+            if nums.len() != 4 {
+                return Err(format!("{}: bad cover chain {:?}", path.display(), parts[1]));
+            }
+            let id = format!("W{}", sg_witnesses.len());
+            sg_witnesses.push((Entry { id, text: s.to_text(), provenance: parts[2..].join(" ") }, [nums[0], nums[1], nums[2], nums[3]]));
+        }
+        Ok(Corpus { k0, finite, g, extra_from, finite_small, manifold_covers, sg_witnesses })
     }
 }
 
